@@ -56,6 +56,7 @@ PROP = {
         "GunYu.Props.C17.gcLoop_head_fresh",
         # the REPAIRED SetRunId (pendingRunId; Props/C17RunIdFix.lean)
         "GunYu.Props.C17.setRunIdP_good",
+        "GunYu.Props.C17.setRunIdP_no_name",
         "GunYu.Props.C17.setRunIdSeq_fixed_good",
         "GunYu.Props.C17.setRunIdSeq_fixed",
         # the decisions of GetCheckpoint / DelStaleCheckpoint regenerated from the source (Gen/CheckpointGuards.lean, Props/C17Gen.lean)
@@ -87,7 +88,7 @@ PROP = {
         # RedisOutput.SetRunId as Model/BookRunIdSeq.lean setRunIdP transcribes it (logger calls removed; repaired, bf252d5): the early
         # return, the finishing step for a pending id, the ids passed, the in-memory fields assigned only after a step succeeded,
         # three attempts. Model/BookSys.lean setRunId is the same machine for calls that all carry one id (no finishing step)
-        "c17_setrunid": '{ if ro.cfg.RunId == id { return nil } return util.RetryLinearJitter(ctx, func() error { cli, err := ro.NewRedisConn(ctx) if err != nil { return err } defer cli.Close() if pending := ro.pendingRunId; pending != "" && pending != id { err = checkpoint.UpdateCheckpoint(cli, ro.cfg.CheckpointName, []string{pending, ro.cfg.RunId}) if err != nil { return err } ro.cfg.RunId = pending } ro.pendingRunId = id err = checkpoint.UpdateCheckpoint(cli, ro.cfg.CheckpointName, []string{id, ro.cfg.RunId}) if err != nil { return err } ro.cfg.RunId = id ro.pendingRunId = "" return nil }, 3, time.Second*4, 0.3) }',
+        "c17_setrunid": '{ if ro.cfg.RunId == id { return nil } if ro.cfg.CheckpointName == "" { ro.cfg.RunId = id return nil } return util.RetryLinearJitter(ctx, func() error { cli, err := ro.NewRedisConn(ctx) if err != nil { return err } defer cli.Close() if pending := ro.pendingRunId; pending != "" && pending != id { err = checkpoint.UpdateCheckpoint(cli, ro.cfg.CheckpointName, []string{pending, ro.cfg.RunId}) if err != nil { return err } ro.cfg.RunId = pending } ro.pendingRunId = id err = checkpoint.UpdateCheckpoint(cli, ro.cfg.CheckpointName, []string{id, ro.cfg.RunId}) if err != nil { return err } ro.cfg.RunId = id ro.pendingRunId = "" return nil }, 3, time.Second*4, 0.3) }',
         # the checkpoint-key HSETs of the replay path (Model/BookSys.lean senderEntries / writeReq)
         "c17_sender_cp_writes": ['batcher.Put("hset", checkpointKv.Key, checkpointKv.RunIdKey(), runId, checkpointKv.VersionKey(), config.Version)',
                                  'batcher.Put("hset", checkpointKv.Key, checkpointKv.OffsetKey(), lastOffset)'],
@@ -101,6 +102,7 @@ PROP = {
         {"name": "C17sys", "pkg": "./syncer/", "test": "TestVerifC17Sys"},
         {"name": "C17sq", "pkg": "./syncer/", "test": "TestVerifC17Seq"},
         {"name": "C17gr", "pkg": "./cmd/", "test": "TestVerifC17GcRelabel"},
+        {"name": "C17dim", "pkg": "./pkg/redis/checkpoint/", "test": "TestVerifC17Dims"},
     ],
     "driver": "drv_C17",
     "rule": "c17u (UpdateCheckpoint): corpus (D13 witnesses); generated bookkeeping states on the target double: nothing stored / rename / "
@@ -172,6 +174,16 @@ PROP = {
             "error replies planted at the (k+1)-th write request of chosen attempts (k in 0..5, one call in four failing entirely before the hash is repointed): per attempt "
             "the applied requests, per call the return value and the in-memory field, the final position vs BookSys.setRunId; monitors setrunid-calls-lose-position, "
             "setrunid-nil-without-relabel (a call that returned nil: position readable under [new, other]); both fire on lost / smaller / other database only. "
+            "DIMENSION AUDIT (harness C17dim, package checkpoint; forced cases, 3 per dimension value in quick / 40 in thorough, each through the c17g / c17u pipeline = real code vs model at every request prefix, plus the precondition-free monitors "
+            "dim-foreign-bookkeeping-touched and dim-live-id-loses-position; counters dim_<kind>_<value>, cfg_staleCheckpointDuration_<0|1ns|1h|12h|100y>, cfg_live_ids_<n>, cfg_sources_<n>, cfg_resumeFromBreakPoint_false): stored mtime missing / 0 / negative / "
+            "in the future / = threshold / threshold +-1 / old, for a live and for a dead label; staleCheckpointDuration 0 / 1 ns / 1 h / 12 h / 100 years; equal offsets in 2-3 databases with different and with equal mtimes (INJECTED: proved unreachable, nothing "
+            "may be lost), three databases descending; hash entry without records (live / dead id), records without hash entry, hash value \"\"; a user's hash and another tool's checkpoint-like key that the hash does not name, two names with two ids, two ids "
+            "sharing one key; live set of 0 / 1 / 2 / 6 ids; offsets -1 / 0 / 1 / max int64. c17gf now draws 1 / 2 / 4 reachable source nodes (the labelling node LAST) besides the unreachable one. resumeFromBreakPoint=false (CheckpointName \"\"): the real "
+            "SetRunId must issue nothing (monitor setrunid-writes-without-checkpoint-name). NOT drawn: ids that are prefixes of one another (the model reads HasPrefix / Contains as equality on 40-hex ids - assumption 1 - so such ids would be a model difference by "
+            "construction; Redis ids have one length), zero sources (not a legal configuration: the input list is validated non-empty). "
+            "INTERLEAVINGS at request level - enumerated: every request PREFIX of each single operation (crash points); gc pass x relabel with the relabel landing exactly between the poll and the hash read (c17gr, every case); sampled: the relabel landing 1-10 "
+            "requests INSIDE the gc pass (c17gr, one case in three, monitors only), gc pass between two chunks of a live sender session (c17sys / c17gs), SetRunId x SetRunId of one RedisOutput sequentially with failovers in between (c17sp); NOT interleaved with "
+            "each other: start (UpdateCheckpoint at process start) x gc, rename x relabel, the bidirectional format switch x anything (each runs before the process starts its cron / link: sequential in production), two gc passes. "
             "c17gr (gc BESIDE a failover relabel, package cmd, harness C17gr; Props/C17GcRelabel.lean): the REAL gcStaleCheckpoint polls the source double (ids [old, other]); when its `hgetall redis-gunyu-checkpoint-hash` reaches the target double - "
             "after the poll, before the hash is read - the double's Hook runs the REAL RedisOutput.SetRunId(new id) of the link's RedisOutput (the source failed over, PSYNC CONTINUE); the stored position is OLD (older than staleCheckpointDuration "
             "in three cases of four, as a long-running link leaves it; young; without _mtime), 1-3 databases, thresholds 1 h / 12 h; the gc's requests after the relabel and the position after every prefix vs gcReqs on the dumped post-relabel "
@@ -196,6 +208,7 @@ PROP = {
         "recovery-format switch: the namespace root checkpoint lives in DB 0 (setCheckpoint / seedBisyncNamespace write it there)",
         "D24's repair keeps <id>_runid/<id>_version of a live id in every DB a gc pass empties of its _offset/_mtime. These two small fields per (id, DB) are never collected, not even when the id dies: DelStaleCheckpoint only visits entries with offset > 0 (the same pre-existing filter never collects the offset -1 placeholder entry UpdateCheckpoint writes for a new id either). A permanent but bounded leak (<= #ids ever live x #DBs visited), not a correctness problem: fetchCheckpoint reads such a record as offset -1, which is never selected as a position (generated: norunid / nooffset records, corpus d24_*); visible effects: the DB stays listed in INFO keyspace, so every start / gc pass keeps visiting it. Collecting them needs the dead-id branch to drop the offset > 0 filter (gc change + model + proof), not done",
         "standalone target double: getDbMap's cluster short-cut ({0:0}) and the cluster client's routing of GetAllCheckpointHash / HDEL are not executed (a change there is invisible to this check)",
+        "SEVERAL TOOL PROCESSES ON ONE TARGET (dimension audit): gcStaleCp treats every id its OWN sources do not report as dead and protects it only by the freshness of `_mtime`; the replay path never rewrites `_mtime`, so the position of ANOTHER redis-GunYu process writing to the same target looks stale once that process has streamed longer than staleCheckpointDuration, and this process's gc deletes it (records and hash entry). The property speaks of ids `a source still reports` = the sources of the process that runs the gc; C17dim draws such foreign entries (two_names_two_ids, shared_key_two_ids, live_0) and the model agrees with the code that they ARE collected when stale. Not recorded as a finding (by design of the shared hash; a repair needs a per-process namespace or an mtime refreshed by the replay path), stated here so that nobody reads gc_spares_live_id as covering it",
         "other writers of the same bookkeeping are outside the property by declaration: the fullsync API's delCheckpoints (cmd/syncer_api.go) and RedisOutput.ResetStartPoint (C06) delete positions on purpose",
         "one maintenance operation at a time on a target EXCEPT gc beside a replaying sender, which production does run: Reach.session / reach_session_safe interleave gc passes (each cut anywhere) with the requests of a running session, c17sys and c17gs execute it with the real code; two maintenance operations interleaved with each other (gc during a start / SetRunId) are not modelled",
         "foreign DEL / FLUSHDB of a database holding a checkpoint is outside the property (remark: writing <id>_runid/<id>_version with every checkpoint HSET in sendCmdsBatch would make the sender robust against it; not done, sender core unchanged)",
